@@ -455,7 +455,7 @@ def longruns_expiry(prop):
         exps = [dict(tti=2), dict(tti=2, ttl=3)] if prop == "C06" else ([dict(ttl=2), dict(ttl=2, tti=3)] if prop == "C05" else [dict(tti=2), dict(ttl=2)])
         for ex in exps:
             for rg in (regimes() if kind == "S" else [dict()]):
-                for pattern, n in (("readburst", 450), ("readburst", 70), ("massexpiry", 80), ("massexpiry", 240)):
+                for pattern, n in (("readburst", 450), ("readburst", 70), ("massexpiry", 80), ("massexpiry", 240), ("massexpiry-upd", 240), ("massexpiry-upd", 130)):
                     if pattern == "readburst" and "tti" not in ex:
                         continue
                     kw = dict(kind=kind, cap="none", keys=3, A=9, **ex, **rg)
@@ -466,7 +466,7 @@ def longruns_expiry(prop):
 def jobs_for(prop, tier):
     thorough = tier == "thorough"
     j = _jobs_for(prop, tier)
-    if prop in ("C03", "C05", "C06"):
+    if prop in ("C03", "C05", "C06", "C08"):
         j = j + longruns_expiry(prop)
     if prop in ("C01", "C03", "C04", "C06", "C08", "C10", "C11"):
         j = j + callback_space(tier, prop.lower())
